@@ -109,7 +109,7 @@ func c04(r *Run) {
 		// the reader side: bytes that arrived before the close are delivered before end-of-stream is reported (C07.R5), and the
 		// buffer's accounting primitives are used by every consuming method (C01.R2/R3)
 		r.borrow([]string{"C07.R5:closed-only-when-short", "C07.R5:timeout-only-when-short"}, "C07.R5", "C04.R4", func() { c07(r) })
-		r.borrow([]string{"C01.R2:", "C01.R3:", "C01.R8:"}, "C01.R", "C04.R6.", func() { c01(r) })
+		r.borrow([]string{"C01.R2:", "C01.R3:", "C01.R5:", "C01.R8:"}, "C01.R", "C04.R6.", func() { c01(r) })
 	}
 
 	// ---- R4 hang-up after drain; R5 flush hand-off ----------------------------------------------------
